@@ -198,7 +198,7 @@ func forkShapes() []forkShape {
 	return out
 }
 
-const forksRule = "enumerated long forks: two nodes (the lighter dials the heavier) or a line of three with a fresh node in the middle; common ancestor 50 or 5 blocks below the require height (60) with a lighter branch of 20 / 100 / 120 and a heavier one of 150 / 230 blocks (both crossing the require height, the heavier - and for 100/120 the lighter - longer than one 100-block request, so the first request of the heavier branch arrives through AddBlocks and is only stored, the rest arrives pre-validated on top of it); mirrored with the ancestor above the require height (everything pre-validated) and entirely below the allow height (v1 blocks only). Same oracle as TestC12; the branches differ by more than one block, so convergence and the stall window are asserted for v1 tips too."
+const forksRule = "enumerated long forks: two nodes (the lighter dials the heavier) or a line of three with a fresh node in the middle; common ancestor 50 or 5 blocks below the require height (60) with a lighter branch of 20 / 100 / 120 and a heavier one of 150 / 230 blocks (both crossing the require height, the heavier - and for 100/120 the lighter - longer than one 100-block request, so the first request of the heavier branch arrives through AddBlocks and is only stored, the rest arrives pre-validated on top of it); mirrored with the ancestor above the require height (everything pre-validated) and entirely below the allow height (v1 blocks only). Same oracle as TestC12; the branches differ by more than one block, so convergence and the stall window are asserted for v1 tips too. Heavier-is-not-longer: on a calm network with difficulty ~4096 (real per-block adjustment) a branch of blocks one second apart against a branch of blocks 10-30 s apart off a common trunk - the sufficiently heavier branch has the same height (12/12, 16/16) or is one block shorter (22/23, 30/31), control with the longer branch heavier (12/13); lighter dials heavier, heavier dials lighter, and a line of three with a fresh node in the middle; every node must end on the sufficiently heavier tip."
 
 // TestC12Forks runs the enumerated long-fork geometries (round robin over shards).
 func TestC12Forks(t *testing.T) {
@@ -226,4 +226,111 @@ func TestC12Forks(t *testing.T) {
 		}
 		d.Case(c, cs, err)
 	}
+	// heavier is not longer
+	nf := len(forkShapes())
+	for i, sh := range heavierShapes() {
+		if (nf+i)%shards != shard {
+			continue
+		}
+		c := heavierCase(sh)
+		cs := &kit.CaseStats{}
+		tr := kit.BuildTree(c.Tree)
+		hv, lt := pickTip(tr, c.Nodes[sh.heavyNode()].Tip), pickTip(tr, c.Nodes[sh.lightNode()].Tip)
+		if hv == nil || lt == nil || !hv.Ledger.State.SufficientlyHeavierThan(lt.Ledger.State) || int(hv.Height)-int(lt.Height) != map[bool]int{false: sh.fast - sh.slow, true: sh.slow - sh.fast}[sh.control()] {
+			d.Case(c, cs, fmt.Errorf("INFRA: heavier-not-longer geometry %+v does not hold in the built tree", sh))
+			continue
+		}
+		err := c12Prop.SafeRun(c, cs)
+		cs.Classf("fork:heavier-not-longer,%s,heavier=%d,lighter=%d,order=%s", sh.rel(), sh.fast, sh.slow, sh.order)
+		if err != nil {
+			err = fmt.Errorf("heavier-not-longer fork (calm network with difficulty ~4096; the sufficiently heavier branch has %d blocks one second apart, the lighter one %d blocks %d s apart: heavier %s; %s): %w", sh.fast, sh.slow, sh.slowDt, sh.rel(), sh.order, err)
+		}
+		d.Case(c, cs, err)
+	}
+}
+
+// heavierShape: two branches off a common trunk on a network with real
+// per-block difficulty adjustment (kit.NetSpec Hard 3 + Calm): `fast` blocks
+// one second apart against `slow` blocks slowDt seconds apart. The fast
+// branch carries more work per block, so accumulated work and length come
+// apart: the sufficiently heavier branch is as long as the other, or one block
+// shorter; the control has the longer branch heavier.
+type heavierShape struct {
+	fast, slow, slowDt int
+	order              string // light-dials-heavy | heavy-dials-light | line3 (fresh node in the middle, both dial it)
+}
+
+func (h heavierShape) rel() string {
+	switch {
+	case h.fast == h.slow:
+		return "of equal height"
+	case h.fast < h.slow && h.slowDt >= 10:
+		return "one block shorter"
+	default:
+		return "longer (control)"
+	}
+}
+
+// in the control (slowDt 3) the longer, slow branch is the heavier one
+func (h heavierShape) control() bool { return h.slowDt < 10 }
+func (h heavierShape) heavyNode() int {
+	k := 1
+	if h.control() {
+		k = 0
+	}
+	if h.order == "line3" {
+		k *= 2
+	}
+	return k
+}
+func (h heavierShape) lightNode() int {
+	k := 0
+	if h.control() {
+		k = 1
+	}
+	if h.order == "line3" {
+		k *= 2
+	}
+	return k
+}
+
+func heavierShapes() []heavierShape {
+	var out []heavierShape
+	for _, g := range [][3]int{{12, 12, 10}, {16, 16, 20}, {22, 23, 10}, {30, 31, 30}, {12, 13, 3}} {
+		for _, order := range []string{"light-dials-heavy", "heavy-dials-light", "line3"} {
+			out = append(out, heavierShape{g[0], g[1], g[2], order})
+		}
+	}
+	return out
+}
+
+func heavierCase(sh heavierShape) C12Case {
+	tc := kit.TreeCase{Net: kit.NetSpec{Maturity: 1, Allow: 2, ReqOff: 1, CutOff: 400, Hard: 3, Calm: true}}
+	for i := 0; i < 6; i++ {
+		tc.Blocks = append(tc.Blocks, kit.BlockSpec{Dt: 1, Miner: i % 4, OnBad: true})
+	}
+	run := func(n, miner, dt int) []kit.BlockSpec {
+		var out []kit.BlockSpec
+		for i := 0; i < n; i++ {
+			out = append(out, kit.BlockSpec{Dt: dt, Miner: miner})
+		}
+		return out
+	}
+	f := appendRun(&tc, 5, run(sh.fast, 1, 1))
+	s := appendRun(&tc, 5, run(sh.slow, 2, sh.slowDt))
+	c := C12Case{Tree: tc, Outline: true, V1Converges: true}
+	// node 0 (or 0 and 2): the slow branch / the fast branch
+	switch sh.order {
+	case "light-dials-heavy", "heavy-dials-light":
+		c.Nodes = []C12Node{{Tip: 2*s + 1}, {Tip: 2*f + 1}}
+		from, to := sh.lightNode(), sh.heavyNode()
+		if sh.order == "heavy-dials-light" {
+			from, to = to, from
+		}
+		c.Edges = []C12Edge{{From: from, To: to}}
+	default:
+		c.Nodes = []C12Node{{Tip: 2*s + 1}, {Tip: -1}, {Tip: 2*f + 1}}
+		c.Edges = []C12Edge{{From: 0, To: 1}, {From: 2, To: 1, DelayMS: 20}}
+	}
+	return c
 }
